@@ -7257,8 +7257,8 @@ tsk_tree_map_mutations(tsk_tree_t *self, int32_t *genotypes,
         }
         u = self->tree_sequence->samples[j];
         if (genotypes[j] == TSK_MISSING_DATA) {
-            /* All bits set */
-            optimal_set[u] = UINT64_MAX;
+            /* optimal_set[u] stays 0: the node goes through the Hartigan step
+             * below like a non-sample node */
         } else {
             optimal_set[u] = set_bit(optimal_set[u], genotypes[j]);
             num_alleles = TSK_MAX(genotypes[j], num_alleles);
@@ -7296,7 +7296,8 @@ tsk_tree_map_mutations(tsk_tree_t *self, int32_t *genotypes,
             }
         }
         /* the virtual root has no flags defined */
-        if (u == (tsk_id_t) N || !(node_flags[u] & TSK_NODE_IS_SAMPLE)) {
+        if (u == (tsk_id_t) N || !(node_flags[u] & TSK_NODE_IS_SAMPLE)
+            || optimal_set[u] == 0) {
             max_allele_count = 0;
             for (allele = 0; allele < num_alleles; allele++) {
                 max_allele_count = TSK_MAX(max_allele_count, allele_count[allele]);
